@@ -153,7 +153,15 @@ def run(prog: Program, res: Result) -> None:  # noqa: PLR0912, PLR0915
     ok = bool(sup)
     why = []
     tests = [n for n in cfg.nodes if n.kind == "test" and n.node is not None and norm(n.node) in ("self.size > self.limit", "self.limit < self.size")]
-    incs = [n for n in cfg.nodes if n.kind == "stmt" and isinstance(n.node, ast.AugAssign) and is_self_attr(n.node.target, "size") and isinstance(n.node.op, ast.Add) and norm(n.node.value).startswith(f"len({arg}.encode(")]
+    def byte_len(e: ast.AST) -> bool:
+        """e is the UTF-8 byte length of the argument: len(arg.encode(...)), or len(arg) where arg.isascii() is known to hold."""
+        if isinstance(e, ast.IfExp) and norm(e.test) == f"{arg}.isascii()":
+            return norm(e.body) == f"len({arg})" and byte_len(e.orelse)
+        if isinstance(e, ast.IfExp) and norm(e.test) == f"not {arg}.isascii()":
+            return norm(e.orelse) == f"len({arg})" and byte_len(e.body)
+        return norm(e).startswith(f"len({arg}.encode(")
+
+    incs = [n for n in cfg.nodes if n.kind == "stmt" and isinstance(n.node, ast.AugAssign) and is_self_attr(n.node.target, "size") and isinstance(n.node.op, ast.Add) and byte_len(n.node.value)]
     if not tests:
         ok = False
         why.append("no `self.size > self.limit` test")
